@@ -420,7 +420,7 @@ func GenQPlan(r *core.Rng) *QPlan {
 		// names injected with HardcodeUsers / HardcodeGroups; a group whose uid is the injected one
 		p.Hard = true
 		p.Groups = append(p.Groups, []QRec{{Tmpl: 0, Var: 7<<13 | uint32(r.Intn(1<<11))}, {Tmpl: 3, Var: 4 | 2<<12}, {Tmpl: 4, Var: 1}}) // (with hex-encoded arguments and a unix socket path)
-		gi := (len(p.Groups) - 1) / nt // its index among the owner's groups
+		gi := (len(p.Groups) - 1) / nt                                                                                                   // its index among the owner's groups
 		t := (len(p.Groups) - 1) % nt
 		ops := []QOp{{K: qCoalesce, G: gi}, {K: qResolveGlobal, G: 63}}
 		if r.Chance(1, 10) {
